@@ -119,6 +119,9 @@ fn judge_time(rec: &mut Rec, n: u64, o: i32) {
     let local = raw.rem_euclid(DN as i128) as u64;
     let cls: &'static str = if raw < 0 { "time/wraps-below-midnight" } else if raw >= DN as i128 { "time/wraps-past-midnight" } else { "time/no-wrap" };
     rec.bin(cls);
+    if local == 0 && o != 0 {
+        rec.bin("time/local-reading-exactly-midnight");
+    }
     rec.nontrivial(hash_i128s(&[n as i128, o as i128, 1]));
     let r = trap(|| {
         let base = Time::from_nanos(n).unwrap();
@@ -241,7 +244,7 @@ pub fn run(ctx: &Ctx) -> PropResult {
         let i = ir[(idx / n_off) as usize];
         judge_dt(rec, i, o);
     }));
-    wls.push(Workload::cases("random_instant_offset", ctx.n(150_000, 1_000_000), |rec, _, rng| {
+    wls.push(Workload::cases("random_instant_offset", ctx.count(150_000, 1_000_000), |rec, _, rng| {
         let i = match rng.below(3) {
             0 => super::c09::gen_c09_instant(rng).clamp(MIN_INSTANT + D, MAX_INSTANT - D),
             _ => gen_instant(rng, 1).0,
@@ -252,6 +255,10 @@ pub fn run(ctx: &Ctx) -> PropResult {
     wls.push(Workload::cases("time_all_offsets", n_off * tper, move |rec, idx, rng| {
         let o = (idx % n_off) as i32 - 86_399;
         let n = match (idx / n_off) % 4 {
+            0 if idx % 2 == 0 => {
+                // local reading exactly at midnight, or one nanosecond either side
+                ((DN as i128 - o as i128 * NS + *rng.pick(&[-1i128, 0, 0, 1])).rem_euclid(DN as i128)) as u64
+            }
             0 => *rng.pick(&[0u64, 1, DN - 1, DN / 2]),
             1 => rng.below(86_400) * 1_000_000_000 + *rng.pick(&[0u64, 999_999_999]),
             _ => rng.below(DN),
@@ -282,7 +289,7 @@ pub fn run(ctx: &Ctx) -> PropResult {
             }
         }
     }));
-    wls.push(Workload::cases("api_walks", ctx.n(30_000, 1_500_000), |rec, _, rng| super::walk::walk(rec, rng, "C10", super::walk::Family::Offsets)));
+    wls.push(Workload::cases("api_walks", ctx.count(30_000, 1_500_000), |rec, _, rng| super::walk::walk(rec, rng, "C10", super::walk::Family::Offsets)));
     let out = run_workloads(ctx, wls);
     let mut meta = PropMeta::default();
     meta.exhaustive = true;
@@ -293,7 +300,7 @@ pub fn run(ctx: &Ctx) -> PropResult {
     meta.required_bins = vec![
         "shift/across-0001-01-01", "shift/across-year-end", "shift/across-month-end", "shift/across-midnight", "shift/same-date",
         "offset/with-seconds", "offset/with-minutes", "offset/whole-hours", "time/wraps-below-midnight", "time/wraps-past-midnight", "time/no-wrap",
-        "offset-ctor/accept", "offset-ctor/reject", "walk/with-judged-steps",
+        "offset-ctor/accept", "offset-ctor/reject", "walk/with-judged-steps", "time/local-reading-exactly-midnight",
     ];
     meta.assumptions = vec!["instants built/read as in C03".into()];
     let _ = DateTime::default();
